@@ -171,16 +171,27 @@ def index_patterns(body, j, limit=6):
             return any(mentions(c) for c in t.children())
         return False
 
+    def has_var(t, depth=0):
+        if z3.is_var(t):
+            return True
+        if depth > 30:
+            return True
+        if z3.is_app(t):
+            return any(has_var(c, depth + 1) for c in t.children())
+        return z3.is_quantifier(t)
+
     def walk(t, depth=0):
         if t.get_id() in seen or depth > 60:
             return
         seen.add(t.get_id())
         if z3.is_quantifier(t):
+            # reads of the OUTER index inside a nested quantifier are usable when they are free of the inner bound variables
+            walk(t.body(), depth + 1)
             return
         if z3.is_app(t):
             if t.decl().kind() == z3.Z3_OP_SELECT and len(t.children()) == 2:
                 a, i = t.children()
-                if z3.eq(i, j) and not mentions(a) and not T._has_ite(a):
+                if z3.eq(i, j) and not mentions(a) and not T._has_ite(a) and not has_var(a):
                     found[t.get_id()] = t
             for c in t.children():
                 walk(c, depth + 1)
